@@ -218,6 +218,10 @@ def run_real(case):
                     # one base name in per-file directories (run/rank0/trace.json, run/rank1/trace.json, ...)
                     p = os.path.join(tmp, f"d{i}" if gen == 0 else f"d{i}_g{gen}", "trace.json")
                     os.makedirs(os.path.dirname(p), exist_ok=True)
+                if p is None and case.get("glob"):
+                    # the files are given by ONE wildcard pattern (dir/f*); what a trace file is called is up to the
+                    # user (rank2.trace, no extension at all) - the content decides
+                    p = os.path.join(tmp, f"f{i}{['.json', '.trace', '', '.json.1'][(i + case['glob']) % 4]}")
                 p = p or os.path.join(tmp, f"f{i}.json" if gen == 0 else f"f{i}_g{gen}.json")
                 with open(p, "w") as fh:
                     json.dump(file_json(f), fh)
@@ -233,10 +237,11 @@ def run_real(case):
                 paths.append(p)
             ing = None
             try:
-                ing = MultifileIngest(source_uri=",".join(paths), show_warnings=False)
+                uri = os.path.join(tmp, "f*") if case.get("glob") else ",".join(paths)
+                ing = MultifileIngest(source_uri=uri, show_warnings=False)
                 hs = [g.jobhash for g in ing.ingesters]
                 plain = [h for i, h in enumerate(hs) if i not in collide and i not in same0]
-                if gen < 20 and (len(set(plain)) != len(plain) or ing.jobhash in plain):
+                if not case.get("glob") and gen < 20 and (len(set(plain)) != len(plain) or ing.jobhash in plain):
                     gen += 1
                     _quiet(ing)
                     continue
@@ -506,6 +511,8 @@ def gen_wf(ctx: Ctx):
         case = {"files": [gen_wf_file(ctx, u, i) for i in range(k)]}
         if k >= 2 and ctx.rng.random() < 0.06:
             case["same_id_as_0"] = sorted(ctx.rng.sample(range(1, k), ctx.rng.randint(1, min(2, k - 1))))
+        elif ctx.rng.random() < 0.1:
+            case["glob"] = ctx.rng.randint(1, 4)
         elif ctx.rng.random() < 0.2:
             case["layout"] = "dirs"
             if ctx.rng.random() < 0.5:
